@@ -288,6 +288,7 @@ func getCtxSpace() *ctxSpace {
 			for _, p := range sp.levels[L-1] {
 				for oi := range sp.ops {
 					np := append(append([]int32(nil), p...), int32(oi))
+					progressNote.Store(fmt.Sprint("context history ", np))
 					s, m, _ := buildCState(sp.ops, np)
 					k := ckey(s, m)
 					if !seen[k] {
